@@ -23,6 +23,7 @@ typedef struct {
   int locks, unlocks, lock_held;
   int yields; int scheduled; int schedule_order_ok;
   uint64_t now_at_lock;
+ int plain_yields;
 } ghost_t;
 ghost_t G;
 fiber_manager_t VM0;
@@ -53,6 +54,9 @@ int fiber_spinlock_unlock(fiber_spinlock_t* l) { VASSERT(G.lock_held, "C: unlock
 static uint32_t ARG_S, ARG_US;
 static waiter_el_t* published; /* the node reachable from `sleepers` when I switch away */
 static uint64_t published_wake;
+/* a plain yield (no park): returns with nothing published; fiber_sleep on the unchanged tree never calls it — a sleep path that merely yields
+   publishes no wake time and is caught by the postconditions */
+int fiber_yield(void) { G.plain_yields++; return 1; }
 void fiber_manager_yield(fiber_manager_t* m) {
   if (G.yields < 3) G.yields++;
   VASSERT(m == &VM0, "C01: yield on my own manager");
